@@ -78,7 +78,34 @@ def _unlocked_touches(stmts):
     return bad
 
 
+def _lock_regions(fn):
+    n = 0
+    for node in ast.walk(fn):
+        if isinstance(node, ast.With) and any(_is_self_attr(i.context_expr, ("_lock", "_cv")) for i in node.items):
+            n += 1
+        if _is_lock_call(node, "acquire"):
+            n += 1
+    return n
+
+
+ONE_SECTION = ("feed", "read", "empty", "close", "set_event", "read_ready", "__len__")
+
+
 def check_lock_discipline(cls):
+    # each public operation is exactly one critical section (read gives the lock up only inside cv.wait)
+    # and does not delegate to other methods of the class apart from the two _buffer_* helpers
+    fns = {fn.name: fn for fn in cls.body if isinstance(fn, ast.FunctionDef)}
+    for name in ONE_SECTION:
+        if name not in fns:
+            raise ValueError("BufferedPipe.%s not found" % name)
+        k = _lock_regions(fns[name])
+        if k != 1:
+            raise ValueError("BufferedPipe.%s has %d regions protected by self._lock (the model has exactly one "
+                             "critical section per operation)" % (name, k))
+        for node in ast.walk(fns[name]):
+            if (isinstance(node, ast.Call) and _is_self_attr(node.func, tuple(fns)) and node.func.attr not in HELPERS):
+                raise ValueError("BufferedPipe.%s calls self.%s(): operations must be self-contained critical "
+                                 "sections" % (name, node.func.attr))
     for fn in cls.body:
         if not isinstance(fn, ast.FunctionDef) or fn.name in ("__init__",) + HELPERS:
             continue
